@@ -178,3 +178,18 @@ def test_simultaneous_renaming_of_own_inputs():
     e = ["sum", ["mren", 1, [["a", "c"], ["c", "z"]]], ["z"]]
     assert R.forward(e, lv, 0).arr.tolist() == [3.0, 7.0]
     assert np.array_equal(R.expected_adjoint(e, lv, 0, 1, "total").arr, np.ones((2, 2)))
+
+
+def test_substitution_onto_own_name_is_a_diagonal():
+    # X[a,c] = [[1,2],[3,4]]:  X(a='c')[c] = X[c,c] = (1, 4);  d sum_c X[c,c] / dX = identity matrix
+    lv = {"1": {"inputs": [["a", 2], ["c", 2]], "zeros": [], "data": [[1.0, 2.0], [3.0, 4.0]]}}
+    e = ["ren", 1, "a", "c"]
+    assert R.forward(e, lv, 0).names == ("c",) and R.forward(e, lv, 0).arr.tolist() == [1.0, 4.0]
+    d = R.expected_adjoint(["sum", e, ["c"]], lv, 0, 1, "total")
+    assert np.array_equal(R.expand(d, ("a", "c")), np.eye(2))
+    # index tensor indexed by the leaf's other input: Y[a,b](a=idx[b]), idx = (1, 0, 1) -> (Y[1,0], Y[0,1], Y[1,2])
+    lv = {"1": {"inputs": [["a", 2], ["b", 3]], "zeros": [], "data": [[1.0, 2.0, 3.0], [4.0, 5.0, 6.0]]}}
+    e = ["index", 1, "a", "b", [1, 0, 1]]
+    assert R.forward(e, lv, 0).arr.tolist() == [4.0, 2.0, 6.0]
+    d = R.expected_adjoint(["sum", e, ["b"]], lv, 0, 1, "total")
+    assert np.array_equal(R.expand(d, ("a", "b")), np.array([[0.0, 1.0, 0.0], [1.0, 0.0, 1.0]]))
